@@ -14,8 +14,8 @@ for line in open(os.path.join(ROOT, "properties.jsonl")):
 CHECKS = {
     "C10": ("proof",
             "VCs generated from the AST of the real _p_norm (loop invariants with a recursively defined Sigma, per-segment NRA obligations) discharged by z3/cvc5; bounded run-time stand-in vs closed-form integral",
-            "For p in {1,2,3,4} (polynomial), for every integer p >= 1 and for every real p >= 1 (abstract power with its sign / recurrence / monotonicity axioms) every path of the real _p_norm body is proved to add exactly the integral of |y|^p over the segment and the two loops to accumulate the double sum, for all real end-points and all numbers of depths and breakpoints; the exact class's p_norm delegates to it and rejects negative p. Sup norms, norm laws and sup-norm stability are bounded stand-ins.",
-            "floats as reals (A1); closed form = integral (calculus, numerically cross-checked); VC generator + models + contracts trusted; z3/cvc5"),
+            "For p in {1,2,3,4} (polynomial), for every integer p >= 1 and for every real p >= 1 (abstract power with its sign / recurrence / monotonicity axioms) every path of the real _p_norm body is proved to add exactly the integral of |y|^p over the segment and the two loops to accumulate the double sum, for all real end-points and all numbers of depths and breakpoints; the nearly-horizontal branch (expm1/log1p) is proved equal to the same integral given the instances of exp(c log u) = u^c (A7). Entry points: the exact and the grid class's p_norm delegate to it on their own critical pairs / (node, value) pairs (values_to_pairs proved: one pair per depth and node) and reject negative p; both sup norms are proved to bound every absolute value and to be attained. Norm laws (triangle, homogeneity) and sup-norm stability against the bottleneck distance are bounded stand-ins, run with a tolerance of 1e-9 relative to the integral.",
+            "floats as reals (A1); closed form = integral (calculus, numerically cross-checked); A7 exp/log/pow identities at the instantiated points; L11 sup of a piecewise-linear function attained at a breakpoint; VC generator + models + contracts trusted; z3/cvc5"),
     "C14": ("proof",
             "VCs from the AST of evalHeatKernel/heat (nested-loop Sigma invariants, modular call contract) + spec lemmas on the summand, z3/cvc5; bounded run-time stand-in for the float-only effects",
             "The real evalHeatKernel is proved to return the normalised closed double sum for all diagram sizes and contents and heat to return sqrt(k(F,F)+k(G,G)-2k(F,G)); symmetry / diagonal / shift laws are proved on the summand. NaN-freedom, zero on reorderings, triangle inequality and Wasserstein stability are float or paper-level facts: bounded stand-in.",
@@ -81,9 +81,9 @@ CHECKS = {
             "Mixed: proved for all diagrams and all certificate-shaped matchings - exactly one ax.plot per row involving a point, in order, joining the two points or the point and its perpendicular foot ((b+d)/2,(b+d)/2) (NRA with h^2=1/2), the arg-max bottleneck row in the emphasised style, nothing drawn through pyplot's current axes, plot_diagrams invoked once on the same axes. plot_diagrams itself (scatter offsets, limits, infinity line, labels, legend) and the landscape plots are checked on real canvases only (bounded).",
             "D22 matplotlib call -> artist; matching rows integer-valued and in range (C06); arithmetic definedness assumed; generator, models, contracts trusted"),
     "C05": ("other",
-            "contracts on the real construct_mapping (loop invariant: the running distortion bounds every mapped pair, for any RNG draw), find_ub_of_min_distortion (while-loop over a generator of random permutations, for every sampling order), find_ub, find_lb (loop invariant double_lb <= 2 mGH with the confirmation step as assumed contract), confirm_lb_using_bounded_curvature (Theorem A or the row test on the same arguments), confirm_lb_using_bounded_curvature_row (nested while-loop invariants: confirmed iff some maximal row of K is infeasible against EVERY row of DY - the hypothesis of Theorem B), check_assignment_feasibility (frame: never writes into its arguments) and estimate; ghost constants inf-dis / 2 mGH; exhaustive small-graph stand-in vs exact mGH",
+            "contracts on the real construct_mapping (loop invariant: the running distortion bounds every mapped pair, for any RNG draw), find_ub_of_min_distortion (while-loop over a generator of random permutations, for every sampling order), find_ub, find_lb (loop invariant double_lb <= 2 mGH with the confirmation step as assumed contract), confirm_lb_using_bounded_curvature (Theorem A or the row test on the same arguments), confirm_lb_using_bounded_curvature_row (nested while-loop invariants: confirmed iff some maximal row of K is infeasible against EVERY row of DY - the hypothesis of Theorem B), find_largest_size_bounded_curvature (while-loop invariant with a ghost index map: the result is a principal submatrix of DX on a strictly increasing selection of points, all pairwise distances >= d; sort keys abstract), check_assignment_feasibility (frame: never writes into its arguments) and estimate; ghost constants inf-dis / 2 mGH; exhaustive small-graph stand-in vs exact mGH",
             "Mixed: proved for all graph sizes, labelings, RNG states and sampling orders - the upper estimate is the distortion bound of total maps in both directions, hence >= mGH; estimates are non-negative multiples of 1/2; the lower estimate never exceeds mGH *given* L13 and the assumed soundness of the curvature confirmation (Theorems A/B + the greedy assignment test), which is checked only by the bounded stand-in (all pairs of graphs on <=4 vertices, relabelings up to 7 vertices, brute-force feasibility).",
-            "L12-L14 paper lemmas (Theorems A/B assumed); the value of check_assignment_feasibility, represent_distance_matrix_rows_as_distributions, find_unique_max_distributions, find_largest_size_bounded_curvature under assumed contracts (bounded stand-in vs brute force / branch-and-bound up to 8 vertices, integer-type boundary sizes 126..258); D11 RNG ranges; generator, models, contracts trusted"),
+            "L12-L14 paper lemmas (Theorems A/B assumed); the value of check_assignment_feasibility, represent_distance_matrix_rows_as_distributions, find_unique_max_distributions under assumed contracts (bounded stand-in vs brute force / branch-and-bound up to 8 vertices, integer-type boundary sizes 126..258); D11 RNG ranges; generator, models, contracts trusted"),
     "C17": ("other",
             "contracts on the real determine_optimal_int_type, make_distance_matrix_from_adjacency_matrix (connected and disconnected branch, SciPy's shortest_path / connected_components / unique as dependency contracts) and gromov_hausdorff (pair, collection, rejection); a call-graph obligation (find_lb reaches no RNG call); run-time sweep over containers, sparsity, symmetry, relabelings, collections and disconnected graphs",
             "Mixed: proved - the disconnected branch warns and returns the square, finite restriction of the distance matrix to a largest component on both axes and never raises; the integer type holds the maximum; pair / collection dispatch, N < 2 rejected, symmetric zero-diagonal matrices whose entries are the pairwise estimates; lower bounds are RNG-free. Format coercion (list / dense / CSR, triu / symmetric) is SciPy's: bounded sweep.",
